@@ -39,6 +39,7 @@ fn main() {
         Some("gensweep") => gensweep_cmd(&args),
         Some("stall") => stall_cmd(&args),
         Some("wrap") => wrap_cmd(&args),
+        Some("extwipe") => extwipe_cmd(&args),
         _ => {
             eprintln!("usage: seg replay|explore|extract|gensweep|stall ...");
             std::process::exit(2)
@@ -456,7 +457,7 @@ fn explore_cmd(args: &[String]) -> Value {
         let readers: Vec<String> = (1..=nreaders).map(|i| format!("r{i}")).collect();
         let path = scratch_path(&format!("ex{run}"));
         // start file class
-        let class = rng.gen_range(0..8);
+        let class = rng.gen_range(0..9);
         let (init, wk, done) = start_class(class, w);
         let bounds = chunk_bounds(w);
         make_start_file(&path, &init, &bounds);
@@ -567,6 +568,7 @@ fn start_class(class: u32, w: usize) -> (Value, u64, u64) {
         4 => (f(true, 72, true, 72, 1, 4, &one), 1, 1),
         5 => (f(true, 72, true, 72, 1, 65530, &one), 1, 1),
         6 => (f(true, 72, true, 72, 1, 65535, &mixed), 2, 1),
+        8 => (f(true, 72, true, 72, 1, 2, &one), 1, 1),
         _ => (f(true, 72, false, 72, 1, 4, &one), 1, 1),
     }
 }
@@ -885,6 +887,89 @@ fn wrap_cmd(args: &[String]) -> Value {
         cleanup(&path);
     }
     json!({"cases": cases, "violations": violations, "errors": errors, "wall_s": t0.elapsed().as_secs_f64()})
+}
+
+// ------------------------------------------------------------------------------------------ extwipe
+fn extwipe_cmd(_args: &[String]) -> Value {
+    // Out-of-protocol event the reader's own comments claim to survive: the backing file of an ATTACHED reader is
+    // damaged externally, the restarted daemon finds it unusable and re-initialises it (version 1, generation 0
+    // until the first publication). The reader must keep serving its previous snapshot (never an older or empty
+    // one) and then follow the new publications. The reader is kept idle while the file is truncated.
+    let mut cases = vec![];
+    let mut violations = vec![];
+    let mut errors = vec![];
+    let w = 2usize;
+    let bounds = chunk_bounds(w);
+    let readers = vec!["r1".to_string()];
+    for (name, start_gen, stop_new_at) in [("gen4-full-new", 4u64, 99usize), ("gen2-full-new", 2, 99), ("gen4-new-dies-before-version", 4, 9), ("gen4-new-dies-after-version", 4, 11)] {
+        let path = scratch_path(&format!("extwipe_{name}"));
+        let init = serde_json::json!({"ex": true, "len": 72, "mok": true, "size": 72, "ver": 1, "gen": start_gen, "w": [1, 1]});
+        make_start_file(&path, &init, &bounds);
+        let mut ctl = Ctl::new(&path, w, &readers, 1, 1);
+        let mut seen = vec![];
+        let r = (|| -> Result<(), String> {
+            let mut run_all = |ctl: &mut Ctl, who: &str| -> Result<(), String> {
+                let mut g = 0;
+                while ctl.pending_of(who).is_some() && g < 64 {
+                    g += 1;
+                    ctl.release(who, Directive::Proceed)?;
+                }
+                Ok(())
+            };
+            ctl.start("W", Cmd::WNew)?;
+            run_all(&mut ctl, "W")?;
+            ctl.start("r1", Cmd::ROpen)?;
+            ctl.start("W", Cmd::WWrite(2))?;
+            run_all(&mut ctl, "W")?;
+            ctl.start("r1", Cmd::RCall)?;
+            run_all(&mut ctl, "r1")?;
+            seen.push(ctl.procs["r1"].last_done.clone().map(|d| (d.0, d.1.map(|w| w[0]))));
+            ctl.start("W", Cmd::WDrop)?;
+            // external damage: the magic number is clobbered
+            ctl.oracle.external_corruption = true;
+            {
+                use std::io::{Seek, SeekFrom, Write};
+                let mut f = std::fs::OpenOptions::new().write(true).open(&path).map_err(|e| e.to_string())?;
+                f.seek(SeekFrom::Start(0)).map_err(|e| e.to_string())?;
+                f.write_all(&[0u8; 4]).map_err(|e| e.to_string())?;
+            }
+            ctl.start("W", Cmd::WNew)?;
+            let mut g = 0;
+            while ctl.pending_of("W").is_some() && g < stop_new_at {
+                g += 1;
+                ctl.release("W", Directive::Proceed)?;
+            }
+            if ctl.pending_of("W").is_some() {
+                ctl.release("W", Directive::Crash)?;
+            }
+            // the reader, attached all along, polls while the segment is (or stays) uninitialised
+            for _ in 0..2 {
+                ctl.start("r1", Cmd::RCall)?;
+                run_all(&mut ctl, "r1")?;
+                seen.push(ctl.procs["r1"].last_done.clone().map(|d| (d.0, d.1.map(|w| w[0]))));
+            }
+            if !ctl.procs["W"].alive {
+                ctl.start("W", Cmd::WNew)?;
+                run_all(&mut ctl, "W")?;
+            }
+            ctl.start("W", Cmd::WWrite(3))?;
+            run_all(&mut ctl, "W")?;
+            ctl.start("r1", Cmd::RCall)?;
+            run_all(&mut ctl, "r1")?;
+            seen.push(ctl.procs["r1"].last_done.clone().map(|d| (d.0, d.1.map(|w| w[0]))));
+            Ok(())
+        })();
+        if let Err(e) = r {
+            errors.push(json!({"case": name, "error": e}));
+        }
+        cases.push(json!({"case": name, "snapshots": format!("{seen:?}"), "violations": viol_json(&ctl.oracle.violations)}));
+        if !ctl.oracle.violations.is_empty() {
+            violations.push(json!({"case": name, "violations": viol_json(&ctl.oracle.violations)}));
+        }
+        ctl.shutdown();
+        cleanup(&path);
+    }
+    json!({"cases": cases, "violations": violations, "errors": errors})
 }
 
 #[allow(dead_code)]
